@@ -255,9 +255,9 @@ class IsotropicNormal(ssm_impl_api.AbstractTreeNormal[IsotropicTreeFlatten]):
         return self.tree_flatten.unflatten_array(sample_latent)
 
     def sample_flat(self, key):
-        n, _n = self.cholesky_flat.shape
-        base = random.normal(key, shape=(n,))
-        return self.mean_flat + (self.cholesky_flat @ base)[:, None]
+        # One independent draw per ODE dimension (the covariance is C x I_d)
+        base = random.normal(key, shape=self.mean_flat.shape)
+        return self.mean_flat + self.cholesky_flat @ base
 
     def identity_conditional(self) -> IsotropicLatentCond:
         num, d = self.mean_flat.shape
